@@ -6,6 +6,8 @@ import (
 	"google.golang.org/grpc/codes"
 	"google.golang.org/grpc/status"
 	"google.golang.org/protobuf/proto"
+
+	"github.com/smart-core-os/sc-golang/internal/verifhook"
 )
 
 // CreateFn is called to generate a message based on the ID the message is going to have.
@@ -34,6 +36,7 @@ func GetAndUpdate(mu *sync.RWMutex, get GetFn, change ChangeFn, save SaveFn) (ol
 	mu.RLock()
 	oldValue, err = get()
 	mu.RUnlock()
+	verifhook.At("gau.afterRead", mu, oldValue)
 	if err != nil {
 		return nil, nil, err
 	}
@@ -43,6 +46,7 @@ func GetAndUpdate(mu *sync.RWMutex, get GetFn, change ChangeFn, save SaveFn) (ol
 		return oldValue, newValue, err
 	}
 
+	verifhook.At("gau.beforeLock", mu, newValue)
 	mu.Lock()
 	defer mu.Unlock()
 	oldValueAgain, _ := get()
@@ -51,5 +55,6 @@ func GetAndUpdate(mu *sync.RWMutex, get GetFn, change ChangeFn, save SaveFn) (ol
 	}
 
 	save(newValue)
+	verifhook.At("gau.committed", mu, newValue)
 	return oldValue, newValue, nil
 }
